@@ -175,7 +175,7 @@ func NewGlobalEnvironmentWithoutHeaders() *GlobalEnvironment {
 	stdModule.DefineClass("", false, true, true, false, false, symbol.HashMap, objectClass, env)
 	stdModule.DefineClass("", false, true, true, false, false, symbol.HashRecord, objectClass, env)
 	stdModule.DefineClass("", false, true, true, false, false, symbol.HashSet, objectClass, env)
-	stdModule.DefineClass("", false, true, true, false, false, symbol.Regex, objectClass, env)
+	stdModule.DefineClass("", false, true, true, true, false, symbol.Regex, objectClass, env)
 	stdModule.DefineClass("", false, true, true, true, false, symbol.Method, objectClass, env)
 	stdModule.DefineClass("", false, true, true, false, false, symbol.Pair, objectClass, env)
 
